@@ -903,6 +903,57 @@ func (c *Ctx) ruleC08Scanner(m *scanfsm.Machine) {
 					}
 				}
 			}
+			// the opening fence is contiguous: once a byte that is not part of the fence (and not a line end) has been
+			// consumed on the way from the first sign, the block state is out of reach until the comment has ended
+			{
+				fenceByte := -1
+				// the byte that leads from the entry towards the block state
+				for b := 1; b < 256 && fenceByte < 0; b++ {
+					for _, o := range m.Trans[ent][b] {
+						if o.Term == scanfsm.TOk {
+							fs := o.FinalStep()
+							if fs != "" && fs != ent {
+								if dd, ok := dEnt[fs]; ok && dd == 1 && dist(fs)[block] == openLen-2 {
+									fenceByte = b
+								}
+							}
+						}
+					}
+				}
+				broken := ""
+				for st, dd := range dEnt {
+					if dd >= openLen-1 || !lineEnds(st) {
+						continue // only the states that are still counting the fence
+					}
+					for b := 1; b < 256 && broken == ""; b++ {
+						if b == fenceByte || b == '\n' || b == '\r' {
+							continue
+						}
+						for _, o := range m.Trans[st][b] {
+							if o.Term != scanfsm.TOk {
+								continue
+							}
+							fs := o.FinalStep()
+							if fs == "" {
+								fs = st
+							}
+							if !cs[fs] {
+								continue
+							}
+							if _, reach := dist(fs)[block]; reach {
+								broken = fmt.Sprintf("in %s the byte %q, which is not part of the fence, leaves the scanner in %s, from where %s is still reached", st, byte(b), fs, block)
+							}
+						}
+					}
+				}
+				if fenceByte < 0 {
+					r.Undecided("C08-COMMENT-FENCE", "contiguous opening fence", "the byte of the opening fence was not identified", c.P.Pos(m.Pos[ent]))
+				} else if broken != "" {
+					r.Bad("C08-COMMENT-FENCE", "contiguous opening fence", broken+": the signs of the opening fence need not stand together, a one line comment that contains two more of them (\"# see #12 and #13\") opens a block comment and the directives that follow are dropped", c.P.Pos(m.Pos[ent]))
+				} else {
+					r.Ok("C08-COMMENT-FENCE", "contiguous opening fence", fmt.Sprintf("any byte other than %q (or a line end) in the states that count the opening fence puts the block state out of reach", byte(fenceByte)), c.P.Pos(m.Pos[ent]))
+				}
+			}
 			key := "block comment entered in " + block
 			switch {
 			case closeLen < 0:
@@ -925,10 +976,20 @@ func (c *Ctx) ruleC08Scanner(m *scanfsm.Machine) {
 			}
 			if fs := o.FinalStep(); cs[fs] {
 				ok := false
+				endsLexeme := false
 				for _, e := range o.Effs {
 					if e.K == scanfsm.EPush && e.Fn == "" {
 						ok = true
 					}
+					if e.K == scanfsm.EFound && strings.HasPrefix(m.EventKinds[e.Ev], "end:") {
+						endsLexeme = true
+					}
+				}
+				if !ok && endsLexeme {
+					// the state is not interrupted but finished: the comment sign ends the lexeme it was reading (an
+					// annotation runs to the comment or the end of the line), and the rest of the line is the comment
+					r.Ok("C08-COMMENT-RETURN", "comment start in "+st, "the comment sign ends the lexeme of this state; nothing is left to come back to but the state that was pushed when the line began", c.P.Pos(m.Pos[st]))
+					continue
 				}
 				if ok {
 					r.Ok("C08-COMMENT-RETURN", "comment start in "+st, "pushes the interrupted state", c.P.Pos(m.Pos[st]))
